@@ -14,9 +14,13 @@ func c26Leaf(tag string) common.Uint256 {
 	return l
 }
 
+// c26Sym: an arbitrary "other" 32-byte value; three symbolic bytes (first, second, last) are enough to
+// differ from any leaf or digest while keeping the solver's terms small.
 func c26Sym(tag string) common.Uint256 {
 	var l common.Uint256
-	copy(l[:], nondetBytes(tag, 32))
+	l[0] = nondetU8(tag + ".0")
+	l[1] = nondetU8(tag + ".1")
+	l[31] = nondetU8(tag + ".31")
 	return l
 }
 
